@@ -159,6 +159,24 @@ DIRECTED = [
      {"1099-r:0.box_1": "7500.00", "1099-r:0.box_2a": "7500.00", "1099-r:0.box_7_ira_sep_simple": "yes", "1099-r:0.belongs_to": "spouse",
       "1040.ira_exception1_spouse": "no", "1040.ira_exception2_spouse": "no", "1040.ira_exception3_spouse": "no", "1040.ira_exception4_spouse": "no",
       "w-2:0.box_1": "70000.00", "w-2:0.box_2": "8000.00"}),
+    # a couple's NC return with interest on a JOINT account from which N.C. tax was withheld (a payer form owned by both)
+    ({"status": "MarriedFilingJointly", "dependents": 0, "wage_scale": 60000, "nc": True},
+     {"w-2": 1, "1099-int": 1, "1098": 1},
+     {"1099-int:0.belongs_to": "both", "1099-int:0.box_1": "2400.00", "1099-int:0.box_4": "0.00", "1099-int:0.box_15_1": "NC", "1099-int:0.box_17_1": "101.00",
+      "1099-int:0.box_15_2": "", "1099-int:0.box_17_2": "0.00", "w-2:0.box_1": "70000.00", "w-2:0.box_2": "8000.00", "w-2:0.box_15": "NC", "w-2:0.box_16": "70000.00",
+      "w-2:0.box_17": "3000.00", "nc_d-400.no_consumer_use_tax": "yes", "nc_d-400.additions_to_agi": "no", "nc_d-400.deductions_from_agi": "no", "nc_d-400.try_itemizing": "no"}),
+    # children, almost no earned income and a pension too large for the earned income credit: whatever the program makes of the refundable
+    # child credit here (today: "not implemented"), the lines computed from earned income below $2,500 must not go negative
+    ({"status": "HeadOfHousehold", "dependents": 2, "ctc": [True, True, False, False], "under6": [False, False, False, False], "wage_scale": 20000},
+     {"w-2": 0, "1099-r": 1},
+     {"1099-r:0.box_1": "53000.00", "1099-r:0.box_2a": "53000.00", "1099-r:0.box_4": "0.00", "1099-r:0.box_7_ira_sep_simple": "no", "1099-r:0.belongs_to": "taxpayer",
+      "1099-r:0.box_2b_taxable_not_determined": "no", "1040.pensions_annuities_adjustments": "no", "1040_s8812.advance_ctc_payments": "0.00"}),
+    # ... and with a little earned income (wages of $1,200)
+    ({"status": "HeadOfHousehold", "dependents": 2, "ctc": [True, True, False, False], "under6": [False, False, False, False], "wage_scale": 20000},
+     {"w-2": 1, "1099-r": 1},
+     {"w-2:0.box_1": "1200.00", "w-2:0.box_2": "0.00", "w-2:0.box_3": "1200.00", "w-2:0.box_5": "1200.00",
+      "1099-r:0.box_1": "53000.00", "1099-r:0.box_2a": "53000.00", "1099-r:0.box_4": "0.00", "1099-r:0.box_7_ira_sep_simple": "no", "1099-r:0.belongs_to": "taxpayer",
+      "1099-r:0.box_2b_taxable_not_determined": "no", "1040.pensions_annuities_adjustments": "no", "1040_s8812.advance_ctc_payments": "0.00"}),
 ]
 
 
